@@ -31,6 +31,11 @@ char DICT_type;
 void *SCOPEfind(Scope s, char *name, int type) { (void)s; (void)type; g_sf_calls++; g_sf_name = name; DICT_type = g_sf_kind; return g_sf_result; }
 int LISTget_length(Linked_List l) { (void)l; return g_nargs; }
 struct Scope_ *FUNC_NVL, *FUNC_USEDIN;
+/* models for the identifier arm of EXP_resolve: no enumeration item of that name; list primitives */
+void *DICTlookup(Dictionary d, char *n) { (void)d; (void)n; return 0; }
+static struct Linked_List_ g_newlist; static struct Link_ g_newmark; int g_listadd_calls; void *g_listadd_item;
+Linked_List LISTcreate(void) { g_newlist.mark = &g_newmark; g_newmark.next = &g_newmark; g_newmark.prev = &g_newmark; return &g_newlist; }
+void *LISTadd_last(Linked_List l, void *item) { (void)l; g_listadd_calls++; g_listadd_item = item; return item; }
 /* ---- models of the contracts of the two attribute look-ups (schema.c / entity.c), over one ghost fact chosen by the harness:
  *      where the name is declared relative to the entity asked about: 1 = in it or in an ancestor, 2 = only in a subtype, 0 = nowhere.
  *      VARfind(entity, name, strict): own or inherited attribute, never a subtype's (enforced on the real bodies in unit entity_c, h_VARfind);
